@@ -7,6 +7,11 @@ ASSUMPTIONS = [
     "the text of that content; bytes(x) of a bytes-like object has the same content; these are exact str/bytes objects.",
     "JSON backend (compat.json.loads): the result and acceptance depend only on the text, rejection raises a ValueError "
     "subclass, and str/bytes/bytearray/memoryview inputs are accepted (orjson; the stdlib json module accepts the first three).",
+    "The configured backend (orjson) accepts exactly the JSON texts the statement's decoder accepts and returns the same value, "
+    "except that it reads an integer outside the 64-bit range as a float; such an integer needs at least 19 digits in a row "
+    "(the longest run inside the range is 20 for 2**64-1 and 19 for -2**63, so the test is conservative). The standard "
+    "library's json.loads IS the statement's decoder on JSON text (it additionally accepts NaN/Infinity tokens, modelled). "
+    "<compiled \\d{19}>.search(text) is truthy exactly when the text has such a run.",
     "ast.literal_eval raises only ValueError, TypeError, SyntaxError, MemoryError or RecursionError.",
     "functools.lru_cache hashes its argument: str, bytes and read-only memoryviews are hashable, bytearray and writable "
     "memoryviews are not.",
@@ -47,8 +52,10 @@ def main(tier, seed):
         fails, n, d = c14_concrete.search(stop_at=3)
         chk.bounded.append({"name": "bounded cross-check: string pool x 5 carriers x type pool on the real code",
                             "evaluations": n, "distinct_nontrivial": d, "failures": len(fails),
-                            "rule": "35 strings (look-alikes, malformed JSON, control/non-ASCII, pathological nesting) + wire forms (json.dumps and repr) of pool values; str/bytes/bytearray/memoryview(ro)/memoryview(rw)"})
+                            "rule": "JSON / literal text of every composite pool wire value (and of integers at the 64-bit boundaries) vs the decoded value; 35 strings (look-alikes, malformed JSON, control/non-ASCII, pathological nesting) + wire forms (json.dumps and repr) of pool values; str/bytes/bytearray/memoryview(ro)/memoryview(rw)"})
         for f in fails:
             chk.violation("bounded-cross-check", {"found": True, "kind": "c14-case", "case": f}, True)
+    chk.known_witness("C14-json-integers-beyond-64-bit", c14_concrete.beyond_64_bit_witness,
+                      "JSON text holding an integer outside the 64-bit range")
     chk.resolve_failures(searcher)
     return chk.finish()
